@@ -154,6 +154,8 @@ fn main() {
         counters: BTreeMap::new(),
         sets: BTreeMap::new(),
         samples: vec![],
+        details: vec![],
+        detail_n: 0,
         violations: BTreeMap::new(),
         cursor,
         viol_log: viol_file,
